@@ -125,10 +125,15 @@ fn required_ambiguity_resolution(game: &Game, mv: Move) -> AmbiguityResolution {
         .iter()
         .any(|m| m.src().rank() == mv.src().rank());
 
+    if potentially_ambiguous_moves.is_empty() {
+        return AmbiguityResolution::None;
+    }
+
     match (ambiguity_by_file, ambiguity_by_rank) {
-        (false, false) => AmbiguityResolution::None,
+        // The file is enough to tell the pieces apart, including when they share neither file nor
+        // rank (e.g. knights on b1 and f3 both reaching d2)
+        (false, _) => AmbiguityResolution::File,
         (true, false) => AmbiguityResolution::Rank,
-        (false, true) => AmbiguityResolution::File,
         (true, true) => AmbiguityResolution::Exact,
     }
 }
